@@ -113,13 +113,11 @@ fn canonical(n: &HNode) -> HNode {
     }
 }
 
+/// JSON hands the integer weights to the library as they are, so only payoffs matter there
 fn all_exact(n: &HNode) -> bool {
     match n {
         HNode::Term(p) => short_number(*p),
-        HNode::Chance { outs, .. } => {
-            let tot: f64 = outs.iter().map(|(w, _)| *w).sum();
-            is_pow2(tot as u64) && tot.fract() == 0.0 && outs.iter().all(|(_, k)| all_exact(k))
-        }
+        HNode::Chance { outs, .. } => outs.iter().all(|(w, k)| w.fract() == 0.0 && all_exact(k)),
         HNode::Player { acts, .. } => acts.iter().all(|(_, k)| all_exact(k)),
     }
 }
